@@ -19,29 +19,33 @@ Section Mapped.
   Hypothesis Hs32 : zlen (ix_segments (mp_ix m)) < 2 ^ 32.
 
   (* the approximate range of the mapped container satisfies range_ok *)
-  Theorem mapped_range_ok_at q : q < sentinel c -> float_ok c data (Z.max (hd 0 data) q) ->
+  Theorem mapped_range_ok_at_cap q : q < sentinel c -> float_ok_cap c data (Z.max (hd 0 data) q) ->
     exists lo hi, mapped_range c m q = Ok (lo, hi) /\ range_ok data q lo hi /\ hi - lo <= 2 * c_eps c + 2.
   Proof.
     intros Hq Hfl. destruct (from_range_inv c data m Hm) as [Hb Hdat].
-    destruct (search_contract_at c data (mp_ix m) q Hc Hd Hb Hs32 Hq Hfl)
+    destruct (search_contract_at_cap c data (mp_ix m) q Hc Hd Hb Hs32 Hq Hfl)
       as (a & Es & H1 & H2 & H3 & H4 & H5 & H6 & _).
     exists (a_lo a), (a_hi a). unfold mapped_range. rewrite Es. cbn [bind]. rewrite Hdat.
     replace ((a_lo a <? 0) || (a_hi a >? zlen data) || (a_hi a <? a_lo a)) with false by lia.
     split; [reflexivity|]. split; [|exact H6]. unfold range_ok. tauto.
   Qed.
+
+  Theorem mapped_range_ok_at q : q < sentinel c -> float_ok c data (Z.max (hd 0 data) q) ->
+    exists lo hi, mapped_range c m q = Ok (lo, hi) /\ range_ok data q lo hi /\ hi - lo <= 2 * c_eps c + 2.
+  Proof. intros Hq Hfl. exact (mapped_range_ok_at_cap q Hq (float_ok_cap_of _ _ _ Hfl)). Qed.
 End Mapped.
 
 (* C11: the four queries agree with the multiset semantics of the sorted array *)
-Theorem C11_mapped_at c data m q :
+Theorem C11_mapped_at_cap c data m q :
   idx_ok c -> data_ok c data -> from_range c data = Ok m -> zlen (ix_segments (mp_ix m)) < 2 ^ 32 ->
-  q < sentinel c -> float_ok c data (Z.max (hd 0 data) q) ->
+  q < sentinel c -> float_ok_cap c data (Z.max (hd 0 data) q) ->
   mapped_lower_bound c m q = Ok (lb data q) /\
   mapped_upper_bound c m q = Ok (ub data q) /\
   mapped_count c m q = Ok (ub data q - lb data q) /\
   mapped_contains c m q = Ok (existsb (Z.eqb q) data).
 Proof.
   intros Hc Hd Hm Hs32 Hq Hfl.
-  destruct (mapped_range_ok_at c data m Hc Hd Hm Hs32 q Hq Hfl) as (lo & hi & Hr & Hok & _).
+  destruct (mapped_range_ok_at_cap c data m Hc Hd Hm Hs32 q Hq Hfl) as (lo & hi & Hr & Hok & _).
   destruct (from_range_inv c data m Hm) as [_ Hdat].
   pose proof (do_sorted c data Hd) as Hs.
   assert (Hn : zlen data < 2 ^ 62) by (pose proof (do_n32 c data Hd); lia).
@@ -51,16 +55,28 @@ Proof.
   exact (contains_spec c m q data lo hi Hdat Hs Hr Hok).
 Qed.
 
+Theorem C11_mapped_at c data m q :
+  idx_ok c -> data_ok c data -> from_range c data = Ok m -> zlen (ix_segments (mp_ix m)) < 2 ^ 32 ->
+  q < sentinel c -> float_ok c data (Z.max (hd 0 data) q) ->
+  mapped_lower_bound c m q = Ok (lb data q) /\
+  mapped_upper_bound c m q = Ok (ub data q) /\
+  mapped_count c m q = Ok (ub data q - lb data q) /\
+  mapped_contains c m q = Ok (existsb (Z.eqb q) data).
+Proof.
+  intros Hc Hd Hm Hs32 Hq Hfl.
+  exact (C11_mapped_at_cap c data m q Hc Hd Hm Hs32 Hq (float_ok_cap_of _ _ _ Hfl)).
+Qed.
+
 Section C11_all.
   Variables (c : cfg) (data : list Z) (m : mapped) (q : Z).
   Hypothesis Hc : idx_ok c.
-  Hypothesis Hf : float_ok_all c.
+  Hypothesis Hf : float_ok_valid c.
   Hypothesis Hd : data_ok c data.
   Hypothesis Hm : from_range c data = Ok m.
   Hypothesis Hs32 : zlen (ix_segments (mp_ix m)) < 2 ^ 32.
   Hypothesis Hq : q < sentinel c.
 
-  Let H := C11_mapped_at c data m q Hc Hd Hm Hs32 Hq (Hf _ _).
+  Let H := C11_mapped_at c data m q Hc Hd Hm Hs32 Hq (Hf _ _ Hd).
 
   Theorem C11_lower_bound : mapped_lower_bound c m q = Ok (lb data q).
   Proof. exact (proj1 H). Qed.
@@ -71,13 +87,13 @@ Section C11_all.
   Theorem C11_contains : mapped_contains c m q = Ok (existsb (Z.eqb q) data).
   Proof. exact (proj2 (proj2 (proj2 H))). Qed.
   Theorem C11_range : exists lo hi, mapped_range c m q = Ok (lo, hi) /\ range_ok data q lo hi /\ hi - lo <= 2 * c_eps c + 2.
-  Proof. exact (mapped_range_ok_at c data m Hc Hd Hm Hs32 q Hq (Hf _ _)). Qed.
+  Proof. exact (mapped_range_ok_at c data m Hc Hd Hm Hs32 q Hq (Hf _ _ Hd)). Qed.
 End C11_all.
 
 (* C11 with the construction: from_range succeeds (ComposeBuild.build_total) and the four queries are
    exact, for up to 2^30 keys; no hypothesis on the built container is left *)
 Theorem C11_mapped_total c data :
-  idx_ok c -> cfg_small c -> float_ok_all c -> data_ok c data -> zlen data <= 2 ^ 30 ->
+  idx_ok c -> cfg_small c -> float_ok_valid c -> data_ok c data -> zlen data <= 2 ^ 30 ->
   exists m, from_range c data = Ok m /\ mp_data m = data /\
     forall q, q < sentinel c ->
       mapped_lower_bound c m q = Ok (lb data q) /\
@@ -89,7 +105,7 @@ Proof.
   assert (Em : from_range c data = Ok (mkMapped ix data (serialize c ix data))).
   { unfold from_range. rewrite E. reflexivity. }
   eexists. split; [exact Em|]. split; [reflexivity|]. intros q Hq.
-  exact (C11_mapped_at c data _ q Hc Hd Em Hs32 Hq (Hf _ _)).
+  exact (C11_mapped_at c data _ q Hc Hd Em Hs32 Hq (Hf _ _ Hd)).
 Qed.
 
 Print Assumptions C11_mapped_total.
